@@ -1040,6 +1040,28 @@ pub fn main_with<E: Engine + 'static>(engine: &'static E) -> ! {
     hashes.sort_unstable();
     hashes.dedup();
     let distinct_nontrivial = hashes.len() as u64;
+    // digest of everything the batch computed (for the determinism self-test): plans, counters
+    // other than resource gauges, violation groups. Wall-clock quantities never enter it.
+    let run_digest = {
+        let mut h = crate::rng::Fnv::new();
+        h.u64(total.evals);
+        for x in &hashes {
+            h.u64(*x);
+        }
+        for (k, v) in &total.counters {
+            if k.starts_with("max_") || k.starts_with("worker_deaths") || k.starts_with("runs_skipped") {
+                continue;
+            }
+            h.str(k);
+            h.u64(*v);
+        }
+        for ((c, k), n) in &total.viol_counts {
+            h.str(c);
+            h.str(k);
+            h.u64(*n);
+        }
+        h.0
+    };
     drop(hashes);
 
     // group violations by (class,key), keep the lowest run index of each
@@ -1146,6 +1168,7 @@ pub fn main_with<E: Engine + 'static>(engine: &'static E) -> ! {
             "probes_expected_but_zero": missing,
             "violation_groups": groups.keys().map(|(c, k)| format!("{}|{}", c, k)).collect::<Vec<_>>(),
             "exhaustive": false,
+            "run_digest": format!("{:016x}", run_digest),
         });
         if let (Some(o), Some(e)) = (
             coverage.as_object_mut(),
@@ -1182,6 +1205,7 @@ pub fn main_with<E: Engine + 'static>(engine: &'static E) -> ! {
         "[{}] runs={} evaluations={} distinct_nontrivial={} wall={:.1}s unlisted_violations={} known_findings_hit={}",
         prop, n_runs, total.evals, distinct_nontrivial, wall, unlisted, used_known.len()
     );
+    println!("[{}] run_digest={:016x}", prop, run_digest);
     for (k, v) in &total.counters {
         println!("    {:<44} {}", k, v);
     }
